@@ -44,4 +44,4 @@ def main(run: common.Run):
 
 
 if __name__ == "__main__":
-    common.guarded_main("C09", "proof", main)
+    common.guarded_main("C09", "proof", main, generic_replay=True)
